@@ -39,6 +39,9 @@ type Checker struct {
 	// SkipKnown makes Step return ErrKnownFinding instead of a violation for
 	// cases matching SigFlushNoopAfterReadFromError.
 	SkipKnown bool
+	// Keys, if set, collects the masking keys of the client-side frames by the
+	// route that produced them (see KeyStats).
+	Keys *KeyStats
 	// MinSize, if > 0, is a payload capacity the configuration guarantees (the
 	// documented buffer size minus the largest header): data up to it "fits the
 	// buffer" whatever Size() reports. Buffers never shrink, so it holds for the
@@ -118,6 +121,9 @@ func (c *Checker) Step(a Action, r Result) error {
 		}
 		if f.H.Fin && (a.Kind != KFlush || i != len(frames)-1) {
 			return fmt.Errorf("%s: frame %d (number %d of %d sent by this call) has FIN set; only the last frame of a final flush may", a.Kind, idx, i+1, len(frames))
+		}
+		if c.Keys != nil && f.H.Masked {
+			c.Keys.Add(keyRoute(a.Kind), f.H.Mask)
 		}
 		c.msg = append(c.msg, f)
 		c.sent += len(f.Payload)
@@ -276,3 +282,69 @@ func (c *Checker) finish(r Result) error {
 	c.LastMsg = c.msg
 	return nil
 }
+
+// keyRoute names the code path a frame of the given action kind came from:
+// Flush, FlushFragment and ReadFrom only ever send the writer's own buffer;
+// WriteThrough sends the caller's bytes; Write may do either.
+func keyRoute(kind string) string {
+	switch kind {
+	case KFlush, KFragment, KReadFrom:
+		return "buffered flush"
+	case KThrough:
+		return "write-through"
+	}
+	return "write (buffered or direct)"
+}
+
+// KeyStats is the statistical clause on masking keys (RFC 6455 §5.3: a fresh,
+// unpredictable key per frame): over the many client-side frames one test
+// function observes per route, the keys must not all be equal (in particular
+// not all zero, which would put the payload on the wire in clear). For an
+// implementation drawing 32 random bits per frame the chance of n equal keys
+// is 2^-32(n-1); the harness pins math/rand per case, so a run is
+// deterministic anyway.
+type KeyStats struct {
+	routes map[string]*keyRoute1
+}
+
+type keyRoute1 struct {
+	n        int
+	first    [4]byte
+	distinct bool
+}
+
+// Add records one observed key.
+func (k *KeyStats) Add(route string, key [4]byte) {
+	if k.routes == nil {
+		k.routes = map[string]*keyRoute1{}
+	}
+	r := k.routes[route]
+	if r == nil {
+		r = &keyRoute1{first: key}
+		k.routes[route] = r
+	}
+	r.n++
+	if key != r.first {
+		r.distinct = true
+	}
+}
+
+// Check returns a violation for every route with at least min observed frames
+// whose keys were all identical, and the per-route frame counts.
+func (k *KeyStats) Check(min int) (violations []string, counts map[string]int) {
+	counts = map[string]int{}
+	for _, name := range []string{"buffered flush", "write-through", "write (buffered or direct)", "WriteMessage"} {
+		r := k.routes[name]
+		if r == nil {
+			continue
+		}
+		counts[name] = r.n
+		if r.n >= min && !r.distinct {
+			violations = append(violations, fmt.Sprintf("all %d client-side frames sent by the %s route carry the same masking key %x: the key is not drawn per frame (RFC 6455 §5.3)", r.n, name, r.first))
+		}
+	}
+	return violations, counts
+}
+
+// Reset forgets everything observed.
+func (k *KeyStats) Reset() { k.routes = nil }
